@@ -673,7 +673,8 @@ class ArrGen:
             # mask section and body section differ
             lines = [f'where (mk(1:n-1)) {a.name}({sec(la, 1, 1)}) = {b.name}({sec(lb, 0, 1)}) + {self.lit(typ)}']
             return Stmt(lines, {'where', 'where-shifted'}, 'where_shifted', pre=self._where_pre('1', 'n-1'))
-        ar, br = f'{a.name}({sec(la)})', f'{b.name}({sec(lb)})'
+        short = 1 if hostile == 'where_no_loop' else 0      # a range no other loop of the routine has
+        ar, br = f'{a.name}({sec(la, 0, short)})', f'{b.name}({sec(lb, 0, short)})'
         pre = self._where_pre(str(la), aff('n', la - 1))
         if hostile == 'where_multi':
             lines = [f'where ({ar} > {zero})',
@@ -684,12 +685,12 @@ class ArrGen:
             return Stmt(lines, {'where', 'where-masked-elsewhere'}, 'where_multi', pre=pre)
         tags = {'where'}
         bare = la == 1 and a.dims[0].pad == 0 and lb == 1 and b.dims[0].pad == 0 and r.random() < 0.4 \
-            and self.fl.get('implicit_forms', True)
+            and self.fl.get('implicit_forms', True) and not short
         if bare:
             ar, br = a.name, b.name
             tags.add('where-bare-arrays')
         use_mk = la == 1 and self.fl.get('logical_mask', True) and r.random() < 0.35
-        mask = ('mk' if bare else 'mk(1:n)') if use_mk else f'{ar} > {zero}'
+        mask = ('mk' if bare else ('mk(1:n-1)' if short else 'mk(1:n)')) if use_mk else f'{ar} > {zero}'
         body = f'{ar} = {br} - {ar}' if r.random() < 0.5 else f'{ar} = {br} * {r.choice([2, 3])}'
         form = r.choice(['stmt', 'construct', 'elsewhere'])
         if form == 'stmt':
@@ -840,6 +841,63 @@ class ArrGen:
         st = Stmt([txt], tags, 'section_call_arg' if hostile == 'section_call_arg' else None)
         return st
 
+    def stmt_whole(self):
+        """whole-array forms: bare names and ':' on both sides, operands with different lower bounds"""
+        r = self.rng
+        typ = r.choice(['int', 'real', 'real'])
+        cands = self.writable(typ)
+        lhs = r.choice(cands)
+        tags = {'whole-array', f'rank{lhs.rank}'}
+
+        def form(arr, allow_bare=True):
+            """bare name or all-':' reference; tags colon on shifted dims"""
+            shifted = any(d.lb != 1 for d in arr.dims)
+            opts = ['colon']
+            if allow_bare:
+                opts += ['bare', 'bare']
+            f = r.choice(opts)
+            if f == 'colon' and shifted and not self.fl.get('allow_colon_shifted'):
+                f = 'bare' if allow_bare else 'explicit'
+            if f == 'bare':
+                tags.add('bare-array')
+                if shifted:
+                    tags.add('bare-array-lb-ne-1')
+                return arr.name
+            if f == 'colon':
+                tags.add('colon-form')
+                if shifted:
+                    tags.add('colon-on-shifted-array')
+                return f"{arr.name}({', '.join(':' * arr.rank)})"
+            return f"{arr.name}({', '.join(f'{d.lb}:{d.ub_text()}' for d in arr.dims)})"
+        lt = form(lhs, allow_bare=not self.fl.get('no_bare_lhs'))
+        ops = []
+        for b in r.sample(cands, len(cands)):
+            if len(ops) >= 2 or b.rank != lhs.rank:
+                continue
+            if not all(db.base == dl.base for db, dl in zip(b.dims, lhs.dims)):
+                continue
+            if all(db.pad == dl.pad for db, dl in zip(b.dims, lhs.dims)):
+                if b is lhs and r.random() < 0.5:
+                    continue
+                ops.append(form(b))
+                if any(db.lb != dl.lb for db, dl in zip(b.dims, lhs.dims)):
+                    tags.add('implicit-range-rhs-different-lower-bound')
+            elif all(db.pad >= dl.pad for db, dl in zip(b.dims, lhs.dims)) and b is not lhs:
+                # explicit section of the lhs extent out of a larger array
+                subs = []
+                for db, dl in zip(b.dims, lhs.dims):
+                    off = r.randint(0, db.pad - dl.pad)
+                    base = dl.base if dl.base != 'c' else None
+                    subs.append(f'{db.lb + off}:{aff(base, db.lb + off + dl.pad - 1)}')
+                ops.append(f"{b.name}({', '.join(subs)})")
+                tags.add('implicit-range-lhs-explicit-rhs')
+        if not ops or r.random() < 0.3:
+            ops.append(self.lit(typ) if r.random() < 0.5 else self.scal(typ))
+            tags.add('scalar-broadcast')
+        if any(d.lb != 1 for d in lhs.dims):
+            tags.add('lhs-lb-ne-1')
+        return Stmt([f'{lt} = {self.combine(typ, ops)}'], tags, None)
+
     def stmt_reduction(self):
         r = self.rng
         typ = r.choice(['int', 'real'])
@@ -923,7 +981,7 @@ class ArrGen:
         self.setup_arrays()
         hostile = fl.get('hostile')
         nst = r.randint(fl.get('min_stmts', 4), fl.get('max_stmts', 8))
-        kinds = ['assign'] * 6 + ['loop_elem'] * 2 + ['in_loop'] * 2
+        kinds = ['assign'] * 6 + ['loop_elem'] * 2 + ['in_loop'] * 2 + ['whole'] * 3
         if fl.get('where', True):
             kinds += ['where'] * 2
         if fl.get('calls', True):
@@ -939,7 +997,7 @@ class ArrGen:
         while len(stmts) < nst and tries < 60:
             tries += 1
             k = r.choice(kinds)
-            st = {'assign': self.stmt_assign, 'loop_elem': self.stmt_loop_elem, 'in_loop': self.stmt_in_loop,
+            st = {'assign': self.stmt_assign, 'loop_elem': self.stmt_loop_elem, 'whole': self.stmt_whole, 'in_loop': self.stmt_in_loop,
                   'where': self.stmt_where, 'call': self.stmt_call, 'reduction': self.stmt_reduction,
                   'vecdim': self.stmt_vecdim, 'derived': self.stmt_derived_dims}[k]()
             if st is None:
